@@ -8,7 +8,7 @@ from . import values as V
 from . import strops as S
 from . import iters as I
 from . import fmt as F
-from .engine import RustPanic, Inconclusive, is_sym, z_and, z_or, z_not
+from .engine import RustPanic, Inconclusive, PathAbort, is_sym, z_and, z_or, z_not
 from .values import (Str, Ch, Struct, Enum, Vec, HMap, HSet, Ref, Closure, FnRef, PyFn, TypeVal, Float, Opaque,
                      Some, Ok, Err, mk_none, deref, deep_clone, sym_eq, is_some, is_none)
 from .iters import Iter
@@ -914,10 +914,28 @@ def s_char_indices(interp, s, a, pl, h, tf):
     return I.from_list([(UIntC(o[i]), Ch(c)) for i, c in enumerate(s.cs)])
 
 
+def _utf8_bytes(c):
+    return list(chr(c).encode('utf-8'))
+
+
 def s_bytes(interp, s, a, pl, h, tf):
-    if any(not isinstance(c, int) or c >= 128 for c in s.cs):
-        raise Inconclusive('bytes() of non-ASCII/symbolic string')
-    return I.from_list([UIntC(c) for c in s.cs])
+    """str::bytes: symbolic one-byte characters stay symbolic (the byte is the code point); a symbolic wider character is
+    split over the representative non-ASCII set (a path per member) and contributes its concrete UTF-8 bytes"""
+    s._no_opaque('bytes')
+    out = []
+    for c in s.cs:
+        if isinstance(c, int):
+            out.extend(UIntC(b) for b in _utf8_bytes(c))
+        elif V.cwidth(c) == 1:
+            out.append(c)
+        else:
+            for r in V.R_CHARS:
+                if V.utf8_width(r) == V.cwidth(c) and decide(c == r):
+                    out.extend(UIntC(b) for b in _utf8_bytes(r))
+                    break
+            else:
+                raise PathAbort()
+    return I.from_list(out)
 
 
 def s_as_bytes(interp, s, a, pl, h, tf):
